@@ -6,6 +6,7 @@ import (
 	"time"
 
 	"github.com/pion/interceptor"
+	"github.com/pion/interceptor/internal/ntp"
 	"github.com/pion/rtcp"
 	"github.com/pion/rtp"
 
@@ -117,3 +118,71 @@ func HC09Adapter() {
 		vr.Assert(ok, "only sent packets inside the declared range are reported")
 	}
 }
+
+// HC09RFC8888: RFC 8888 feedback through the gcc adapter: two streams, 3 sent packets each (any
+// subset still known), one report block per stream with a symbolic begin (wrap included), symbolic
+// received flags, ECN marks and arrival-time offsets.
+func HC09RFC8888() {
+	a := NewFeedbackAdapter()
+	bases := [2]uint16{65535, 20}
+	base := bases[vr.Concretize(vr.NondetInt(0, vr.Param("nbases", 2)-1))]
+	var inHist [2][3]bool
+	var dep [2][3]time.Time
+	var size [2][3]int
+	ssrcs := [2]uint32{0xAAAA, 0xBBBB}
+	for s := 0; s < 2; s++ {
+		for i := 0; i < 3; i++ {
+			inHist[s][i] = s == 1 || vr.Concretize(vr.NondetInt(0, 1)) == 1
+			if !inHist[s][i] {
+				continue
+			}
+			dep[s][i] = c09epoch.Add(time.Duration(vr.NondetInt(0, 1<<30)))
+			size[s][i] = vr.NondetInt(0, 1500)
+			hdr := rtp.Header{Version: 2, SSRC: ssrcs[s], SequenceNumber: base + uint16(i)}
+			vr.Assert(a.OnSent(dep[s][i], &hdr, size[s][i], nil) == nil, "sent recorded")
+		}
+	}
+	ts := vr.NondetU32()
+	rep := &rtcp.CCFeedbackReport{ReportTimestamp: ts}
+	var recv [2][3]bool
+	var ecn [2][3]uint8
+	var ato [2][3]uint16
+	for s := 0; s < 2; s++ {
+		blk := rtcp.CCFeedbackReportBlock{MediaSSRC: ssrcs[s], BeginSequence: base}
+		for i := 0; i < 3; i++ {
+			recv[s][i] = vr.NondetBool()
+			ecn[s][i] = uint8(vr.NondetInt(0, 3))
+			ato[s][i] = uint16(vr.NondetInt(0, 0x1FFD))
+			blk.MetricBlocks = append(blk.MetricBlocks, rtcp.CCFeedbackMetricBlock{Received: recv[s][i], ECN: rtcp.ECN(ecn[s][i]), ArrivalTimeOffset: ato[s][i]})
+		}
+		rep.ReportBlocks = append(rep.ReportBlocks, blk)
+	}
+	acks := a.OnRFC8888Feedback(c09epoch, rep)
+	vr.Cover("decoded")
+	ref := ntp.ToTime(uint64(ts) << 16) // C20 covers the conversion itself
+	want := 0
+	for s := 0; s < 2; s++ {
+		for i := 0; i < 3; i++ {
+			if !inHist[s][i] {
+				continue
+			}
+			want++
+			cnt := 0
+			for _, ack := range acks {
+				if ack.SSRC == ssrcs[s] && ack.SequenceNumber == base+uint16(i) {
+					cnt++
+					vr.Assert(ack.Size == size[s][i] && ack.Departure.Equal(dep[s][i]), "ack carries the recorded size and departure")
+					if recv[s][i] {
+						d := time.Duration(uint64(ato[s][i]) * 1953125 / 2) // 1/1024 s units
+						vr.Assert(ack.Arrival.Equal(ref.Add(-d)) && uint8(ack.ECN) == ecn[s][i], "arrival time and ECN as encoded for this sequence number")
+					} else {
+						vr.Assert(ack.Arrival.IsZero(), "not received: no arrival time")
+					}
+				}
+			}
+			vr.Assert(cnt == 1, "each covered sent packet acknowledged exactly once")
+		}
+	}
+	vr.Assert(len(acks) == want, "only packets that were really sent are acknowledged")
+}
+
